@@ -154,8 +154,10 @@ MANIFEST = {
             "processing are not recorded), a restart at any point is invisible (cache = reload of storage is an invariant), removals "
             "delete view and storage entries, and the shadow list of published files equals the server's content at every moment as "
             "long as the server's content only changes through accepted deltas of this CA - with the negation of the unrestricted "
-            "statement proved by a decide witness (F-C19-1: publisher removed and added again => duplicates and stale entries) and "
-            "replayed on the implementation. Tied to the code by lock-step differential execution of the model against an in-process "
+            "statement proved by a decide witness (F-C19-3: publisher removed and added again while an object is dropped => stale "
+            "entry for good) and replayed on the implementation; no URI is ever listed twice (full since fix 7b4aa6c7) and last_success "
+            "is the time of the last exchange the parent answered positively (full since fix 0cf51f5b), the two former failures kept "
+            "as labelled counter-models of the pinned tree. Tied to the code by lock-step differential execution of the model against an in-process "
             "krill (status harness), by evaluating the theorem predicates on the implementation's own observation, and by tables "
             "regenerated from the source on every run (what each status setter writes incl. the three arms of update_published; on "
             "which reply arm manager.rs calls which setter; cache / storage calls of the store) with decide-checked theorems that "
